@@ -4,9 +4,9 @@
  * Op file (objects are named by small integers; an id is bound once):
  *   D <hex>                              hash_data over the bytes
  *   new <id> <S|H|E> <spec>              scalar object on the stack / on the heap (new) / embedded in an Array
- *   arr|lst <id> <S|H> <ety> <spec>*     Array / List with the constructor arguments; ety: I | F | S | <k> (plain struct P<k>)
+ *   arr|lst <id> <S|H> <ety> <spec>*     Array / List with the constructor arguments; ety: I | F | S | <n> (plain struct P<n> of n bytes, n = 1 … 41)
  *   tup <id> <S|H> <objid>*              Tuple of existing scalar objects
- *   tab|tre <id> <S|H> <kty> <vty> (<kspec> <vspec>)*     Table / Tree with constructor arguments; kty, vty: I | F | S | <k>
+ *   tab|tre <id> <S|H> <kty> <vty> (<kspec> <vspec>)*     Table / Tree with constructor arguments; kty, vty: I | F | S | <n>
  *                                        (key, value and element types of any size, in any combination; a Tree takes plain structs
  *                                        whose size is a multiple of 8 only: KF-C19-tree-misaligned-header)
  *   put <id> <spec>                      assign(obj, temporary of spec)             (scalars)
@@ -16,11 +16,12 @@
  *   eq <a> <b>                           cmp(a,b) (sign) and both hashes
  *   heq <a> <b>                          both hashes only (no comparison)
  *   copy <newid> <a> | assign <y> <x> | swap <a> <b>      (assign <x> <x>: self-assignment, every kind but a String)
+ *   sort <c>                             sort(c) on an Array (quicksort: every element move is a swap of two element structs)
  *   has <c> <spec>                       mem(c, x) and, for a Table / Tree, get(c, x)
  *   hcopy <newid> <a> | hassign <y> <x>  copy / assign observed through content and hashes only (no cmp: for Tables of any layout,
  *                                        whose cmp is order-of-slots dependent — KF-C10-table-cmp)
  * spec: i:<dec> | f:<16 hex: bits> | s:<hex bytes, no 00> | t:<builtin type name> | u:<name: run-time Type of that name> |
- *       p<k>:<hex, exactly PSIZE[k] bytes> | r:<objid> | b:<objid>
+ *       p<n>:<hex, exactly n bytes> | r:<objid> | b:<objid>
  *
  * O lines carry a canonical dump of the concrete value (for a Table: nslots and every slot with its stored home+1) and the
  * hash; the Lean driver must print the same.  X lines: the direct oracle — an independent MurmurHash64A, and shadow values
@@ -29,15 +30,32 @@
 #include <inttypes.h>
 #include <errno.h>
 
-/* ------------------------------------------------------------------ probe types: plain structs, no instances at all */
-#define NPROBE 7
-static const size_t PSIZE[NPROBE] = {1, 4, 8, 12, 16, 40, 24};
-struct P0 { unsigned char b[1]; };  struct P1 { unsigned char b[4]; };  struct P2 { unsigned char b[8]; };
-struct P3 { unsigned char b[12]; }; struct P4 { unsigned char b[16]; }; struct P5 { unsigned char b[40]; };
-struct P6 { unsigned char b[24]; };
-static var P0, P1, P2, P3, P4, P5, P6;
-static var probe_type(int k) { switch (k) { case 0: return P0; case 1: return P1; case 2: return P2; case 3: return P3; case 4: return P4; case 5: return P5; default: return P6; } }
-static int probe_index(var t) { for (int k = 0; k < NPROBE; k++) if (probe_type(k) == t) return k; return -1; }
+/* ------------------------------------------------------------------ probe types: plain structs of every size 1 … 41 bytes, no
+ * instances at all (hash = hash_data, cmp = memcmp, assign = memcpy, swap = memswap over size(type)); declared at file scope */
+#define MAXPROBE 41
+#define PROBES(X) X(1) X(2) X(3) X(4) X(5) X(6) X(7) X(8) X(9) X(10) X(11) X(12) X(13) X(14) X(15) X(16) X(17) X(18) X(19) X(20) \
+  X(21) X(22) X(23) X(24) X(25) X(26) X(27) X(28) X(29) X(30) X(31) X(32) X(33) X(34) X(35) X(36) X(37) X(38) X(39) X(40) X(41)
+#define PROBE_DECL(n) struct P##n { unsigned char b[n]; }; static var P##n = Cello(P##n);
+PROBES(PROBE_DECL)
+#define PROBE_ENTRY(n) &P##n,
+static var* const PROBE_TAB[MAXPROBE + 1] = { NULL, PROBES(PROBE_ENTRY) };
+static var probe_type(int n) { return (n >= 1 && n <= MAXPROBE) ? *PROBE_TAB[n] : NULL; }
+static int probe_index(var t) { for (int n = 1; n <= MAXPROBE; n++) if (*PROBE_TAB[n] == t) return n; return -1; }   /* = its size */
+/* type codes: 'I' 'F' 'S' 'T' 'r' 'b', or TC_RAW + n for the plain struct of n bytes */
+#define TC_RAW 1000
+static int tc_is_raw(int c) { return c > TC_RAW && c <= TC_RAW + MAXPROBE; }
+static const char* tc_str(int c) {
+  static char buf[8][8]; static int k = 0; char* b = buf[k++ & 7];
+  if (tc_is_raw(c)) snprintf(b, 8, "%d", c - TC_RAW); else snprintf(b, 8, "%c", (char)c);
+  return b;
+}
+static int parse_tc(const char* s) {   /* element / key / value type token: I | F | S | <n>; 0 = ill-formed */
+  if (!s[0]) return 0;
+  if (!s[1] && (s[0] == 'I' || s[0] == 'F' || s[0] == 'S')) return s[0];
+  if (s[0] < '1' || s[0] > '9' || strlen(s) > 2) return 0;
+  for (const char* q = s; *q; q++) if (*q < '0' || *q > '9') return 0;
+  int n = atoi(s); return (n >= 1 && n <= MAXPROBE) ? TC_RAW + n : 0;
+}
 
 /* ------------------------------------------------------------------ independent MurmurHash64A (Austin Appleby's reference, transcribed) */
 static uint64_t ref_murmur64a(const unsigned char* key, size_t len, uint64_t seed) {
@@ -59,7 +77,7 @@ static uint64_t ref_murmur64a(const unsigned char* key, size_t len, uint64_t see
 
 /* ------------------------------------------------------------------ shadow values */
 typedef struct { char k; int64_t i; uint64_t bits; unsigned char* b; size_t n; int pk; int target; } SV;
-typedef struct { char kind; /* 'v' scalar, 'A' 'L' 'U' 'T' 'R' */ SV sv; char ety, kty, vty; size_t n, cap; SV* items; SV* vals; int* ids; } Shadow;
+typedef struct { char kind; /* 'v' scalar, 'A' 'L' 'U' 'T' 'R' */ SV sv; int ety, kty, vty; size_t n, cap; SV* items; SV* vals; int* ids; } Shadow;
 typedef struct { int used; var p; char cls; Shadow sh; } Obj;
 #define MAXID 4096
 static Obj objs[MAXID];
@@ -105,8 +123,10 @@ static int parse_spec(const char* s, SV* v) {
     for (const char* q = s + 2; *q; q++) if (!((*q >= 'a' && *q <= 'z') || (*q >= 'A' && *q <= 'Z') || (*q >= '0' && *q <= '9') || *q == '_')) return 0;
     if (s[0] == 't' && !builtin_type(s + 2)) return 0;
     v->b = (unsigned char*)strdup(s + 2); v->n = l; return 1; }
-  if (s[0] == 'p' && s[1] >= '0' && s[1] < '0' + NPROBE && s[2] == ':') { v->k = 'p'; v->pk = s[1] - '0';
-    if (!parse_hex(s + 3, &v->b, &v->n)) return 0; return v->n == PSIZE[v->pk]; }
+  if (s[0] == 'p' && s[1] >= '1' && s[1] <= '9') { const char* c = strchr(s, ':'); if (!c || c - s > 3) return 0;
+    char num[4] = {0}; memcpy(num, s + 1, (size_t)(c - s - 1)); int tc = parse_tc(num); if (!tc_is_raw(tc)) return 0;
+    v->k = 'p'; v->pk = tc - TC_RAW;
+    if (!parse_hex(c + 1, &v->b, &v->n)) return 0; return v->n == (size_t)v->pk; }
   if ((s[0] == 'r' || s[0] == 'b') && s[1] == ':') { v->k = s[0]; return parse_id(s + 2, &v->target) && is_live(v->target); }
   return 0;
 }
@@ -126,7 +146,18 @@ static int sv_equal(const SV* a, const SV* b) {
   }
   return 0;
 }
-static char sv_ty(const SV* a) { switch (a->k) { case 'i': return 'I'; case 'f': return 'F'; case 's': return 'S'; case 't': case 'u': return 'T'; case 'p': return (char)('0' + a->pk); case 'r': return 'r'; default: return 'b'; } }
+static int sv_ty(const SV* a) { switch (a->k) { case 'i': return 'I'; case 'f': return 'F'; case 's': return 'S'; case 't': case 'u': return 'T'; case 'p': return TC_RAW + a->pk; case 'r': return 'r'; default: return 'b'; } }
+
+/* the order sort() must produce among values of one type: Int by value, Float along the number line (the two zeros are one
+ * value), String / plain struct byte-wise */
+static int64_t f_key(uint64_t b) { return (b >> 63) ? -(int64_t)(b & 0x7fffffffffffffffULL) : (int64_t)b; }
+static int sv_ref_cmp(const SV* a, const SV* b) {
+  switch (a->k) {
+    case 'i': return a->i < b->i ? -1 : a->i > b->i;
+    case 'f': { int64_t x = f_key(a->bits), y = f_key(b->bits); return x < y ? -1 : x > y; }
+    default: { size_t n = a->n < b->n ? a->n : b->n; int c = n ? memcmp(a->b, b->b, n) : 0; if (c) return c < 0 ? -1 : 1; return a->n < b->n ? -1 : a->n > b->n; }
+  }
+}
 
 /* ------------------------------------------------------------------ string builder */
 typedef struct { char* s; size_t n, cap; } SB;
@@ -153,13 +184,13 @@ static void sv_dump(SB* b, const SV* v) {
 
 /* ------------------------------------------------------------------ dumps of the library's objects (white box) */
 static int id_of_ptr(var p) { for (int i = 0; i < MAXID; i++) if (objs[i].used && objs[i].p == p) return i; return -1; }
-static char ty_code(var t) {
+static int ty_code(var t) {
   if (t == Int) return 'I'; if (t == Float) return 'F'; if (t == String) return 'S'; if (t == Type) return 'T';
-  if (t == Ref) return 'r'; if (t == Box) return 'b'; int k = probe_index(t); if (k >= 0) return (char)('0' + k); return '?';
+  if (t == Ref) return 'r'; if (t == Box) return 'b'; int k = probe_index(t); if (k >= 0) return TC_RAW + k; return '?';
 }
-static var ty_of_code(char c) { if (c == 'I') return Int; if (c == 'F') return Float; if (c == 'S') return String; if (c >= '0' && c < '0' + NPROBE) return probe_type(c - '0'); return NULL; }
-static size_t size_of_code(char c) { if (c >= '0' && c < '0' + NPROBE) return PSIZE[c - '0']; return 8; }
-static int tree_ty_ok(char c) { return size_of_code(c) % 8 == 0; }
+static var ty_of_code(int c) { if (c == 'I') return Int; if (c == 'F') return Float; if (c == 'S') return String; if (tc_is_raw(c)) return probe_type(c - TC_RAW); return NULL; }
+static size_t size_of_code(int c) { if (tc_is_raw(c)) return (size_t)(c - TC_RAW); return 8; }
+static int tree_ty_ok(int c) { return size_of_code(c) % 8 == 0; }
 
 static void dump_scalar(SB* b, var p) {
   var t = type_of(p);
@@ -169,7 +200,7 @@ static void dump_scalar(SB* b, var p) {
   else if (t == Type) sb_put(b, "t:%s", Type_Builtin_Name(p));
   else if (t == Ref) sb_put(b, "r:%d", id_of_ptr(((struct Ref*)p)->val));
   else if (t == Box) sb_put(b, "b:%d", id_of_ptr(((struct Box*)p)->val));
-  else { int k = probe_index(t); if (k >= 0) { sb_put(b, "p%d:", k); sb_hex(b, p, PSIZE[k]); } else sb_put(b, "?"); }
+  else { int k = probe_index(t); if (k >= 0) { sb_put(b, "p%d:", k); sb_hex(b, p, (size_t)k); } else sb_put(b, "?"); }
 }
 static int is_container_type(var t) { return t == Array || t == List || t == Tuple || t == Table || t == Tree; }
 
@@ -178,11 +209,11 @@ static int cmp_str(const void* a, const void* b) { return strcmp(*(char* const*)
 static void dump_value(SB* b, var p, int layout) {
   var t = type_of(p);
   if (t == Array) {
-    struct Array* a = p; if (layout) sb_put(b, "A:%c", ty_code(a->type)); sb_put(b, "[");
+    struct Array* a = p; if (layout) sb_put(b, "A:%s", tc_str(ty_code(a->type))); sb_put(b, "[");
     for (size_t i = 0; i < a->nitems; i++) { if (i) sb_put(b, ","); dump_scalar(b, Array_Item(a, i)); }
     sb_put(b, "]");
   } else if (t == List) {
-    struct List* l = p; if (layout) sb_put(b, "L:%c", ty_code(l->type)); sb_put(b, "[");
+    struct List* l = p; if (layout) sb_put(b, "L:%s", tc_str(ty_code(l->type))); sb_put(b, "[");
     var it = l->head; for (size_t i = 0; i < l->nitems && it; i++) { if (i) sb_put(b, ","); dump_scalar(b, it); it = *List_Next(l, it); }
     sb_put(b, "]");
   } else if (t == Tuple) {
@@ -192,7 +223,7 @@ static void dump_value(SB* b, var p, int layout) {
   } else if (t == Table) {
     struct Table* tb = p;
     if (layout) {
-      sb_put(b, "T:%c%c{%zu|", ty_code(tb->ktype), ty_code(tb->vtype), tb->nslots);
+      sb_put(b, "T:%s,%s{%zu|", tc_str(ty_code(tb->ktype)), tc_str(ty_code(tb->vtype)), tb->nslots);
       int first = 1;
       for (size_t i = 0; i < tb->nslots; i++) { uint64_t h = Table_Key_Hash(tb, i); if (!h) continue;
         if (!first) sb_put(b, ","); first = 0; sb_put(b, "%zu:%" PRIu64 ":", i, h); dump_scalar(b, Table_Key(tb, i)); sb_put(b, "="); dump_scalar(b, Table_Val(tb, i)); }
@@ -205,7 +236,7 @@ static void dump_value(SB* b, var p, int layout) {
   } else if (t == Tree) {
     struct Tree* tr = p;
     if (layout) {
-      sb_put(b, "R:%c%c{", ty_code(tr->ktype), ty_code(tr->vtype));
+      sb_put(b, "R:%s,%s{", tc_str(ty_code(tr->ktype)), tc_str(ty_code(tr->vtype)));
       int first = 1; foreach (k in p) { if (!first) sb_put(b, ","); first = 0; dump_scalar(b, k); sb_put(b, "="); dump_scalar(b, get(p, k)); }
       sb_put(b, "}");
     } else {
@@ -388,7 +419,9 @@ static int sign(int c) { return c < 0 ? -1 : c > 0 ? 1 : 0; }
 static char* toks[MAXTOK]; static int ntok;
 static void tokenize(char* l) { ntok = 0; char* p = l; while (*p && ntok < MAXTOK) { while (*p == ' ') p++; if (!*p) break; toks[ntok++] = p; while (*p && *p != ' ') p++; if (*p) *p++ = 0; } }
 
-static size_t n_eq_pairs = 0, n_equal_by_construction = 0, n_copy = 0, n_swap = 0, n_hashdata = 0;
+static size_t n_eq_pairs = 0, n_equal_by_construction = 0, n_copy = 0, n_swap = 0, n_hashdata = 0, n_hashdata_aligned = 0, n_hashdata_high = 0;
+/* swaps of two plain structs whose size is not a multiple of 8 / of 4; sorts, and sorts of Arrays of such structs that moved an element */
+static size_t n_swap_odd8 = 0, n_swap_odd4 = 0, n_sort = 0, n_sort_odd = 0, n_sort_moved = 0;
 /* coverage of nearly equal values: compared pairs of different scalars that are neighbours (doubles at most 4 ulp apart or the two
  * smallest subnormals of opposite sign; Ints 1, 2^31, 2^32 or 2^63 apart; Strings / structs differing in the last byte only or by one
  * trailing byte), lookups, self-assignments */
@@ -429,14 +462,17 @@ static void do_hash_data(void) {
   O("D len=%zu h=%016" PRIx64, n, h);
   uint64_t want = ref_murmur64a(b, n, 0xCe110);
   if (h != want) X("sig=c10-murmur line=%zu what=hash_data over %zu bytes gives %016" PRIx64 ", MurmurHash64A gives %016" PRIx64, cur_line, n, h, want);
-  /* the same bytes at every alignment, with different neighbours */
-  unsigned char* buf = malloc(n + 32);
-  for (int off = 0; off < 8; off++) {
-    memset(buf, 0xA5 ^ off, n + 32); memcpy(buf + 8 + off, b, n);
-    uint64_t h2 = hash_data(buf + 8 + off, n);
-    if (h2 != h) { X("sig=c10-hashdata-addr line=%zu what=hash_data of the same %zu bytes differs with the address/neighbouring bytes (offset %d)", cur_line, n, off); break; }
+  /* the same bytes at every start alignment 0 … 7 inside a larger buffer, with three kinds of neighbouring bytes: the hash is a
+   * function of the bytes alone (not of the address, not of what lies before or behind them) */
+  unsigned char* raw = malloc(n + 48); unsigned char* buf = raw + ((8 - ((uintptr_t)raw & 7)) & 7);   /* buf is 8-aligned */
+  static const unsigned char fills[3] = {0xA5, 0x00, 0xFF};
+  for (int off = 0; off < 8; off++) for (int f = 0; f < 3; f++) {
+    memset(buf, fills[f] ^ (f == 0 ? off : 0), n + 32); memcpy(buf + 8 + off, b, n);
+    uint64_t h2 = hash_data(buf + 8 + off, n); n_hashdata_aligned++;
+    if (h2 != want) { X("sig=c10-hashdata-addr line=%zu what=hash_data of %zu bytes starting %d bytes behind an 8-byte boundary (neighbouring bytes %02x) gives %016" PRIx64 ", MurmurHash64A of those bytes is %016" PRIx64, cur_line, n, off, fills[f], h2, want); off = 8; break; }
   }
-  free(buf); free(b);
+  for (size_t i = 0; i < n; i++) if (b[i] >= 0x80) { n_hashdata_high++; break; }
+  free(raw); free(b);
 }
 
 /* parse an element argument for a sequence container: spec (Array/List) or object id (Tuple) */
@@ -449,7 +485,6 @@ int main(int argc, char** argv) {
   v_init();
   if (argc < 2) { fprintf(stderr, "usage: h_hash <opfile>\n"); return 2; }
   char arena_mem[1 << 22]; arena = arena_mem; arena_left = sizeof arena_mem;
-  P0 = Cello(P0); P1 = Cello(P1); P2 = Cello(P2); P3 = Cello(P3); P4 = Cello(P4); P5 = Cello(P5); P6 = Cello(P6);
   stop(current(GC));   /* objects are kept alive by the harness table, which the collector cannot see */
   size_t nl; char** lines = v_read_lines(argv[1], &nl);
   for (size_t li = 0; li < nl; li++) {
@@ -476,15 +511,16 @@ int main(int argc, char** argv) {
     }
     else if (strcmp(op, "arr") == 0 || strcmp(op, "lst") == 0) {
       int id; int isarr = op[0] == 'a';
-      if (ntok < 4 || !parse_id(toks[1], &id) || objs[id].used || strlen(toks[2]) != 1 || !strchr("SH", toks[2][0]) || strlen(toks[3]) != 1 || !ty_of_code(toks[3][0])) { O("bad-op"); goto next; }
+      int ety = ntok >= 4 ? parse_tc(toks[3]) : 0;
+      if (ntok < 4 || !parse_id(toks[1], &id) || objs[id].used || strlen(toks[2]) != 1 || !strchr("SH", toks[2][0]) || !ety) { O("bad-op"); goto next; }
       int n = ntok - 4; SV* svs = calloc(n + 1, sizeof(SV)); int ok = 1;
-      for (int i = 0; i < n; i++) if (!parse_spec(toks[4 + i], &svs[i]) || sv_ty(&svs[i]) != toks[3][0]) ok = 0;
+      for (int i = 0; i < n; i++) if (!parse_spec(toks[4 + i], &svs[i]) || sv_ty(&svs[i]) != ety) ok = 0;
       if (!ok) { O("bad-op"); goto next; }
-      var* args = malloc(sizeof(var) * (n + 2)); args[0] = ty_of_code(toks[3][0]);
+      var* args = malloc(sizeof(var) * (n + 2)); args[0] = ty_of_code(ety);
       for (int i = 0; i < n; i++) args[1 + i] = temp_of(&svs[i]); args[n + 1] = Terminal;
       var type = isarr ? Array : List; var mem = container_mem(type, toks[2][0]);
       V_TRY(exc, construct_with(mem, $(Tuple, args)));
-      Obj* o = &objs[id]; o->p = mem; o->used = 1; o->cls = toks[2][0]; o->sh.kind = isarr ? 'A' : 'L'; o->sh.ety = toks[3][0];
+      Obj* o = &objs[id]; o->p = mem; o->used = 1; o->cls = toks[2][0]; o->sh.kind = isarr ? 'A' : 'L'; o->sh.ety = ety;
       sh_reserve(&o->sh, n); for (int i = 0; i < n; i++) o->sh.items[i] = svs[i]; o->sh.n = n;
       observe(op, id, exc);
     }
@@ -505,17 +541,18 @@ int main(int argc, char** argv) {
     }
     else if (strcmp(op, "tab") == 0 || strcmp(op, "tre") == 0) {
       int id; int istab = op[1] == 'a';
+      int kty = ntok >= 5 ? parse_tc(toks[3]) : 0, vty = ntok >= 5 ? parse_tc(toks[4]) : 0;
       if (ntok < 5 || (ntok - 5) % 2 || !parse_id(toks[1], &id) || objs[id].used || strlen(toks[2]) != 1 || !strchr("SH", toks[2][0])
-          || strlen(toks[3]) != 1 || strlen(toks[4]) != 1 || !ty_of_code(toks[3][0]) || !ty_of_code(toks[4][0])) { O("bad-op"); goto next; }
-      if (!istab && !(tree_ty_ok(toks[3][0]) && tree_ty_ok(toks[4][0]))) { O("bad-op"); goto next; }
+          || !kty || !vty) { O("bad-op"); goto next; }
+      if (!istab && !(tree_ty_ok(kty) && tree_ty_ok(vty))) { O("bad-op"); goto next; }
       int n = (ntok - 5) / 2; SV* ks = calloc(n + 1, sizeof(SV)); SV* vs = calloc(n + 1, sizeof(SV)); int ok = 1;
-      for (int i = 0; i < n; i++) { if (!parse_spec(toks[5 + 2*i], &ks[i]) || sv_ty(&ks[i]) != toks[3][0]) ok = 0; if (!parse_spec(toks[6 + 2*i], &vs[i]) || sv_ty(&vs[i]) != toks[4][0]) ok = 0; }
+      for (int i = 0; i < n; i++) { if (!parse_spec(toks[5 + 2*i], &ks[i]) || sv_ty(&ks[i]) != kty) ok = 0; if (!parse_spec(toks[6 + 2*i], &vs[i]) || sv_ty(&vs[i]) != vty) ok = 0; }
       if (!ok) { O("bad-op"); goto next; }
-      var* args = malloc(sizeof(var) * (2 * n + 3)); args[0] = ty_of_code(toks[3][0]); args[1] = ty_of_code(toks[4][0]);
+      var* args = malloc(sizeof(var) * (2 * n + 3)); args[0] = ty_of_code(kty); args[1] = ty_of_code(vty);
       for (int i = 0; i < n; i++) { args[2 + 2*i] = temp_of(&ks[i]); args[3 + 2*i] = temp_of(&vs[i]); } args[2 * n + 2] = Terminal;
       var type = istab ? Table : Tree; var mem = container_mem(type, toks[2][0]);
       V_TRY(exc, construct_with(mem, $(Tuple, args)));
-      Obj* o = &objs[id]; o->p = mem; o->used = 1; o->cls = toks[2][0]; o->sh.kind = istab ? 'T' : 'R'; o->sh.kty = toks[3][0]; o->sh.vty = toks[4][0];
+      Obj* o = &objs[id]; o->p = mem; o->used = 1; o->cls = toks[2][0]; o->sh.kind = istab ? 'T' : 'R'; o->sh.kty = kty; o->sh.vty = vty;
       for (int i = 0; i < n; i++) sh_map_set(&o->sh, &ks[i], &vs[i]);
       observe(op, id, exc);
     }
@@ -730,6 +767,7 @@ int main(int argc, char** argv) {
       char hsa[40], hsb[40]; hash_str(hsa, sizeof hsa, objs[a].p, sa); hash_str(hsb, sizeof hsb, objs[b].p, sb);
       O("swap %d %d %s va=%s ha=%s vb=%s hb=%s", a, b, exc ? v_exc_name(exc) : "ok", a1.s, hsa, b1.s, hsb);
       n_swap++;
+      if (sa->kind == 'v' && sa->sv.k == 'p') { if (sa->sv.n % 8) n_swap_odd8++; if (sa->sv.n % 4) n_swap_odd4++; }
       if (!exc) {
         if (strcmp(a1.s, b0.s) != 0 || strcmp(b1.s, a0.s) != 0) X("sig=c10-swap line=%zu what=swap(%d,%d) did not exchange the values: before %.200s / %.200s after %.200s / %.200s", cur_line, a, b, a0.s, b0.s, a1.s, b1.s);
         if (ha1 != hb0 || hb1 != ha0) X("sig=c10-swap-hash line=%zu what=swap(%d,%d) did not exchange the hashes", cur_line, a, b);
@@ -737,11 +775,45 @@ int main(int argc, char** argv) {
       check_content(a, op); check_content(b, op);
       free(a0.s); free(b0.s); free(a1.s); free(b1.s);
     }
+    else if (strcmp(op, "sort") == 0) {
+      int c;
+      if (ntok != 2 || !parse_id(toks[1], &c) || !is_live(c) || objs[c].sh.kind != 'A' || shadow_has_nan(&objs[c].sh)) { O("bad-op"); goto next; }
+      Shadow* s = &objs[c].sh;
+      int h0ok = hash_of(objs[c].p); uint64_t h0 = H_val;
+      SB before; sb_init(&before); dump_value(&before, objs[c].p, 1);
+      V_TRY(exc, sort(objs[c].p));
+      n_sort++; if (tc_is_raw(s->ety) && size_of_code(s->ety) % 8 && s->n > 1) n_sort_odd++;
+      if (!exc) {
+        /* the elements the Array holds now, matched one by one against what it held; the shadow takes the Array's order */
+        struct Array* a = objs[c].p; int ok = a->nitems == s->n;
+        SV* ns = calloc(s->n + 1, sizeof(SV)); char* used = calloc(s->n + 1, 1);
+        for (size_t i = 0; ok && i < s->n; i++) {
+          SB e; sb_init(&e); dump_scalar(&e, Array_Item(a, i)); int found = 0;
+          for (size_t j = 0; j < s->n && !found; j++) if (!used[j]) {
+            SB d; sb_init(&d); sv_dump(&d, &s->items[j]); if (strcmp(d.s, e.s) == 0) { used[j] = 1; ns[i] = s->items[j]; found = 1; } free(d.s); }
+          if (!found) ok = 0; free(e.s);
+        }
+        SB after; sb_init(&after); dump_value(&after, objs[c].p, 1);
+        if (!ok) X("sig=c10-sort line=%zu what=sort(%d) changed the elements of the Array: before %.300s after %.300s", cur_line, c, before.s, after.s);
+        else {
+          int sorted = 1; for (size_t i = 0; i + 1 < s->n; i++) if (sv_ref_cmp(&ns[i], &ns[i + 1]) > 0) sorted = 0;
+          if (!sorted) X("sig=c10-sort-order line=%zu what=sort(%d) left the Array out of order: %.300s", cur_line, c, after.s);
+          if (strcmp(before.s, after.s) != 0) n_sort_moved++;
+          if (s->n) memcpy(s->items, ns, s->n * sizeof(SV));
+        }
+        if (h0ok && (!hash_of(objs[c].p) || H_val != h0)) X("sig=c10-sort-hash line=%zu what=sort(%d) changed the hash of the Array from %016" PRIx64 " to %016" PRIx64, cur_line, c, h0, H_val);
+        free(ns); free(used); free(after.s);
+      }
+      free(before.s);
+      observe(op, c, exc);
+    }
     else O("bad-op");
     next:
     free(l);
   }
   I("eq_pairs=%zu equal_by_construction=%zu copies=%zu swaps=%zu hash_data=%zu", n_eq_pairs, n_equal_by_construction, n_copy, n_swap, n_hashdata);
+  I("hash_data_at_alignments=%zu hash_data_with_high_bytes=%zu swaps_size_not_mult_8=%zu swaps_size_not_mult_4=%zu sorts=%zu sorts_elem_not_mult_8=%zu sorts_that_moved=%zu",
+    n_hashdata_aligned, n_hashdata_high, n_swap_odd8, n_swap_odd4, n_sort, n_sort_odd, n_sort_moved);
   I("tree_two_child_rems=%zu tree_two_child_rems_value_wider=%zu tree_two_child_rems_key_wider=%zu table_shifting_rems_wide=%zu array_shifts_wide=%zu",
     n_tree_reloc, n_tree_reloc_vwide, n_tree_reloc_kwide, n_table_shift_wide, n_array_shift_wide);
   I("near_float_pairs=%zu near_int_pairs=%zu near_bytes_pairs=%zu near_in_container_pairs=%zu lookups=%zu lookups_with_near_key=%zu self_assigns=%zu",
